@@ -10,7 +10,7 @@ Not decided: which shapes geometrically enclose a tag (can_fit's float test)."""
 import re
 
 from ..common import guards, short, where
-from ..exprs import simplify, mentions_deep, subst_closure, closure_of, format_parts, mentions, strip
+from ..exprs import is_const, inline_calls, simplify, mentions_deep, subst_closure, closure_of, format_parts, mentions, strip
 from ..grammar import GrammarError, load_parser_module
 from ..charset import Unknown
 from ..mirlib import Expr, Program, expr_str
@@ -92,6 +92,53 @@ def run(run):
                             else:
                                 run.bad("C16.L1", "rule-template", where(prog.bodies[cl]),
                                         "the css rule for entry (NAME, DECL) is `%s`, the documented form is `.svgbob .NAME{ DECL }`" % text)
+        if not ok_shape and ((len(rets) == 1 and rets[0][0] == "phi") or len(rets) == 3):
+            # a String accumulated in a loop: `for (i, (class, styles)) in self.css_styles.iter().enumerate() { if i > 0 { css.push('\n') }
+            # css.push_str(&rule(class, styles)) }` (the rule may be built by a helper, inlined here)
+            alts = [strip(x) for x in rets[0][1]] if len(rets) == 1 else list(rets)
+            inits = [x for x in alts if x[0] == "call" and re.search(r"String::(new|with_capacity)$", x[1])]
+            seps = [x for x in alts if x[0] == "mutated_by" and x[1].endswith("String::push") and len(x[2]) == 2]
+            rules_ = [x for x in alts if x[0] == "mutated_by" and x[1].endswith("String::push_str") and len(x[2]) == 2]
+            if len(inits) == 1 and len(seps) == 1 and len(rules_) == 1 and len(alts) == 3:
+                sepv = strip(seps[0][2][1])
+                rule_e = strip(inline_calls(prog, rules_[0][2][1], keep=r"escape_html_text$"))
+                while rule_e[0] == "call" and re.search(r"[dD]eref>?::deref$|::as_str$|::as_ref$|::borrow$", rule_e[1]) and rule_e[2]:
+                    rule_e = strip(rule_e[2][0])
+                over = mentions(rule_e, lambda z: z[0] == "call" and re.search(r"<impl \[T\]>::iter$", z[1]) and strip(z[2][0]) == ("param", 1, ("css_styles",)))
+                rev = mentions(rule_e, lambda z: z[0] == "call" and re.search(r"Iterator::rev$|sort|Iterator::skip|Iterator::take|Iterator::filter|step_by", z[1]))
+                # the separator is pushed before every entry but the first
+                sep_guard = False
+                for bid_, t_ in prog.calls(lc):
+                    if Program.callee_name(t_).endswith("String::push"):
+                        for c_, tk_, sw_ in guards(prog, lc, bid_, direct=True):
+                            c_ = strip(c_)
+                            if c_[0] == "bin" and ((c_[1] == "Gt" and is_const(c_[3], 0) and tk_ != 0) or (c_[1] == "Ne" and is_const(c_[3], 0) and tk_ != 0) or
+                                                    (c_[1] == "Eq" and is_const(c_[3], 0) and tk_ == 0)) and \
+                                    mentions(c_[2], lambda z: z[0] == "call" and z[1].endswith("Iterator::enumerate")):
+                                sep_guard = True
+                if sepv == ("const", "int", 10) and over and not rev and sep_guard:
+                    ok_shape = True
+                    run.ok("C16.L1", "rules joined by a newline", where(b))
+                    run.ok("C16.L1", "one rule per css_styles entry, in entry order (loop over the slice, separator before every entry but the first)", where(b))
+
+                    def item_is2(a):
+                        while a[0] == "call" and a[2] and re.search(r"::escape_html_text$|[dD]eref>?::deref$|::as_str$|::as_ref$|::borrow$|::clone$|ToString>?::to_string$", a[1]):
+                            a = strip(a[2][0])
+                        if a[0] == "field" and mentions(a, lambda z: z[0] == "call" and z[1].endswith("Iterator>::next")):
+                            idx = [f for f in a[2] if str(f).isdigit()]
+                            return {"0": "NAME", "1": "DECL"}.get(idx[-1] if idx else "", "?")
+                        return "?"
+                    fp = format_parts(rule_e)
+                    if fp is None:
+                        run.bad("C16.L1", "rule-template", where(b), "rule text is not a recognisable format!: %s" % expr_str(rule_e)[:120])
+                    else:
+                        pieces, args = fp
+                        itn = iter([item_is2(strip(a)) for kind, a in args])
+                        text = "".join(p_[1] if p_[0] == "lit" else next(itn, "?") for p_ in pieces)
+                        if text == ".svgbob .NAME{ DECL }":
+                            run.ok("C16.L1", "rule template instantiates to `.svgbob .NAME{ DECL }`", where(b), repr(pieces))
+                        else:
+                            run.bad("C16.L1", "rule-template", where(b), "the css rule for entry (NAME, DECL) is `%s`, the documented form is `.svgbob .NAME{ DECL }`" % text)
         if not ok_shape:
             run.bad("C16.L1", "rule-shape", where(b), "legend_css is not `css_styles.iter().map(format).collect().join(\"\\n\")`: %s" % (
                 expr_str(rets[0])[:160] if rets else "?"))
